@@ -13,8 +13,9 @@ the well-formedness predicate of trees.  Core Lean only.
 * `halfsort` only reorders a cover set: it is a parameter `hsort` of the model, the theorems hold for every
   `hsort` that returns a permutation of its argument (the real `halfsort` only swaps entries); the driver runs
   the identity and compares candidate *sets*.
-* batch construction (`batch_create`) is not modelled: the driver runs this model on the tree the real
-  code built (dumped by the harness) after checking `wfTree` on it.
+* batch construction (`batch_create`) is modelled in `Model/CoverBuild.lean` (theorem `batchCreate_wf`: its tree
+  satisfies `wfTree`); the driver runs this model on the tree the real code built (dumped by the harness) after
+  checking `wfTree` on it, and compares that tree with the one `CoverBuild.batchCreate` builds.
 -/
 namespace TapkeeVerif.CoverTree
 
